@@ -513,7 +513,12 @@ class Exponent:
             # 16 * Exponent(Symbol.UNIT,0.25) == 2 * Prefix.UNIT
 
             out_number = Decimal(str(other))
-            if self.residual:  # A whole power of a thousand leaves the number as it is, digit for digit
+            if self.residual == self.residual.to_integral_value():
+                # A whole power of ten shifts the number, digit for digit. (By zero for a power of a thousand.)
+                shift = int(self.residual)
+                num = out_number
+                out_number = _exactly(lambda: num.scaleb(shift), num)
+            else:
                 out_number = out_number * Decimal(10) ** self.residual
 
             return Prefixed.new(out_number, self.symbol)
